@@ -577,7 +577,8 @@ def r06_5(ctx) -> None:
                     if wn is not None and wn in cfg.reachable(succ_by_label(cfg, t, "true")[0]) and \
                             wn not in cfg.reachable(cfg.entry, edge_filter=lambda a, b, lab, _t=t: not (a is _t and lab == "true")):
                         # every true-path passes the warning
-                        if all(cfg.must_pass(s, cfg.exit, [wn]) for s in succ_by_label(cfg, t, "true")):
+                        # ... and the prefix test itself is evaluated for every value (no pre-filter in front of it)
+                        if all(cfg.must_pass(s, cfg.exit, [wn]) for s in succ_by_label(cfg, t, "true")) and cfg.must_pass(cfg.entry, cfg.exit, [t]):
                             ok = True
     ctx.check(ok, "R06.5", fn, fn.node, fn.short, "importing PEM/SSH-looking text as an oct key does not always raise the warning",
               "warnings.warn on every path where value.startswith(<unsafe prefixes>)", construct="unsafe secret warning")
